@@ -1375,6 +1375,9 @@ def main():
     except Abort as e:
         print("context_tables.py: ABORT: %s" % e, file=sys.stderr)
         sys.exit(1)
+    except Exception as e:       # source the parser does not recognise in a place without its own message: abort all the same
+        print("context_tables.py: ABORT: unrecognised source (%s: %s)" % (type(e).__name__, e), file=sys.stderr)
+        sys.exit(1)
     write_if_changed(os.path.join(outdir, "ContextTables.v"), emit(tables) + emit_read(tr.read))
     write_if_changed(os.path.join(outdir, "context_names.json"), names_json(tables, tr.read))
 
